@@ -455,6 +455,14 @@ fn build_lane(rng: &mut Rng, lane: u64, with_root_sysv: bool) -> Result<Lane, St
         let nm = if lane == 7 { hostile[(k + 2 * (lane as usize)) % hostile.len()].clone() } else { benign[(k + lane as usize) % benign.len()].clone() };
         b.sentinel(rng, Mode::Pause, &StackShape { pages: 2, sp_offset: 4096 + 8 * k as i64, ..Default::default() }, Some(nm), None);
     }
+    // lanes 1 and 5: more than 20 threads, several of them sitting in the guard page / an unmapped
+    // page below their stack (size-limit code paths for threads at list position >= 20)
+    if lane == 1 || lane == 5 {
+        for k in 0..22 {
+            let below = if k % 3 == 0 { -((1 + (k as i64 % 4)) * 4096) + 64 } else { 4096 + 16 * k as i64 };
+            b.sentinel(rng, Mode::Pause, &StackShape { pages: 3, sp_offset: below, guard_mapping_pages: if k % 6 == 0 { 4 } else { 0 }, ..Default::default() }, None, None);
+        }
+    }
     let target = Target::spawn(b.spec.clone(), &b.opts)?;
     Ok(Lane { sc: scen::Scenario { b, target, pattern_regions, exec_regions, files, holes }, chain_variants, dev_paths, odd_files })
 }
@@ -482,6 +490,15 @@ fn gen_cases(rng: &mut Rng, lane: &Lane, n: usize) -> Vec<Case> {
         let mut o = DumpOpts::new(t.pid, t.pid);
         o.kill_at = Some((pt.to_string(), arg));
         cases.push(Case { category: "target-killed-mid-dump", what: format!("SIGKILL at {pt}({arg})"), opts: o });
+    }
+    // size limits around the estimate without a crash context (threads at position >= 20 get shortened)
+    for lim in [0u64, 1, 65536, 300_000] {
+        for sanitize in [false, true] {
+            let mut o = DumpOpts::new(t.pid, t.pid);
+            o.size_limit = Some(lim);
+            o.sanitize = sanitize;
+            cases.push(Case { category: "size-limit", what: format!("limit={lim} sanitize={sanitize}"), opts: o });
+        }
     }
     // (a) hostile crash registers
     while cases.len() < n {
@@ -524,7 +541,7 @@ fn classify(out: &WorkerOutcome) -> Option<String> {
 pub fn run_live(rep: &mut Report, thorough: bool, release: bool) {
     let seed = rep.seed;
     let lanes = 9u64; // lane 8 only carries the short /SYSV-like file name and runs two cases
-    let per_lane = if thorough { 640 } else { 75 };
+    let per_lane = if thorough { 640 } else { 84 };
     let results = crate::util::par_map(lanes, |li| {
         let mut out: Vec<(String, String, WorkerOutcome, usize, u64)> = Vec::new();
         let mut rng = Rng::new(seed.wrapping_mul(20_202_021).wrapping_add(li));
